@@ -160,6 +160,18 @@ def mk_cast(ck, a, fromty, toty):
         return C(v, toty)
     if ck == "IntToInt" and fromty == toty:
         return a
+    if ck == "IntToInt" and toty in INT_BITS and fromty in INT_BITS and isinstance(a, tuple) and a:
+        tw, fw = INT_BITS[toty], INT_BITS[fromty]
+        # (x as B) as C with B as wide as x's own type and C no wider: the low bits of x, whatever B's signedness
+        if a[0] == "cast" and a[1] == "IntToInt" and a[3] in INT_BITS and INT_BITS[a[3]] == fw and tw <= fw:
+            return mk_cast(ck, a[2], a[3], toty)
+        # ((x as B) >> k) as C with k + width(C) <= width: bits k.. of x, whatever fills in from the top
+        if a[0] == "bin" and a[1] == "Shr" and is_c(a[3]) and isinstance(a[2], tuple) and a[2] and a[2][0] == "cast" and a[2][1] == "IntToInt" \
+                and a[2][3] in INT_BITS and INT_BITS[a[2][3]] == fw and a[3][1] + tw <= fw:
+            return ("cast", ck, ("bin", "Shr", a[2][2], a[3], a[2][3]), a[2][3], toty)
+        # the integer read from the same bytes in the same order, reinterpreted at the same width
+        if a[0] == "from_bytes" and a[2] in INT_BITS and INT_BITS[a[2]] == fw == tw:
+            return ("from_bytes", a[1], toty, a[3])
     if ck in ("PtrToPtr", "PointerCoercion(MutToConstPointer)", "Subtype"):
         return a
     return ("cast", ck, a, fromty, toty)
@@ -961,6 +973,27 @@ class Engine:
                 target_fn = cf
                 targs = None
                 callee = dict(callee, syn_inline=True)
+            else:
+                cal = _callable(self, cv)
+                if cal is not None and cal[0] == "ctor" and len(args) == 2:
+                    # a tuple-struct / variant constructor passed as a function value (`.map(Wrapper)`, `f(x)` with f = Wrapper)
+                    tup = args[1]
+                    parts = list(tup[5]) if tup[0] == "agg" and tup[1] == "tuple" else None
+                    cobj = cal[1]
+                    nm = cobj.get("name")
+                    known = {"Some": ("core::option::Option", 1), "Ok": ("core::result::Result", 0), "Err": ("core::result::Result", 1)}
+                    if parts is not None:
+                        if nm in known and cobj.get("krate") == "core":
+                            val = ("agg", "adt", known[nm][0], nm, tuple(str(i) for i in range(len(parts))), tuple(parts), known[nm][1])
+                        else:
+                            parent = (cobj.get("canon") or "").rsplit("::{constructor", 1)[0]
+                            val = ("agg", "adt", parent.split("::", 1)[-1] if "::" in parent else parent, nm,
+                                   tuple(str(i) for i in range(len(parts))), tuple(parts), 0)
+                        ev["modelled"] = True
+                        ev["result"] = val
+                        self.write(st, dest, val)
+                        fr["bb"] = t["target"]
+                        return None
         if target_fn is not None and len(st.frames) <= self.max_depth and (self.inline(target_fn, ev) or callee.get("syn_inline")) \
                 and (not any(f0["fn"] is target_fn for f0 in st.frames)
                      or (self.unfold is not None and sum(1 for f0 in st.frames if f0["fn"] is target_fn) == 1 and self.unfold(target_fn, ev, st))):
@@ -1799,6 +1832,32 @@ def _syn_try_for_each(eng, st, callee, args, ev):
     return sf
 
 
+def _syn_for_each(eng, st, callee, args, ev):
+    """Iterator::for_each(iter, f): the documented loop  `while let Some(x) = iter.next() { f(x) }`  (explored up to the engine's loop bound,
+    exactly like a `for` loop written in the source)"""
+    if len(args) != 2:
+        return None
+    cf = _closure_fn(eng, args[1])
+    if cf is None or cf.argc != 2:
+        return None
+    sty = callee.get("self_ty") or (callee.get("args") or ["?"])[0]
+    nxt = {"def": "std::iter::Iterator::next", "canon": "core::iter::traits::iterator::Iterator::next", "full": "Iterator::next", "krate": "core",
+           "name": "next", "args": [sty], "dk": "AssocFn", "unsafe": False, "trait": "core::iter::traits::iterator::Iterator", "self_ty": sty}
+    # locals: 0 ret, 1 iter (by value), 2 closure, 3 env ref, 4 next result, 5 discr, 6 closure result, 7 &mut iter
+    st2 = []
+    blocks = [
+        _bb([_assign(7, {"k": "ref", "mut": True, "p": _P(1, ty=sty)})],
+            {"k": "call", "callee": nxt, "args": [{"k": "move", "p": _P(7, ty="&mut " + sty)}], "dest": _P(4, ty="std::option::Option<&u8>"), "target": 1,
+             "unwind": None, "line": None, "exp": True}),
+        _bb([_assign(5, {"k": "discr", "p": _P(4)})], {"k": "switch", "discr": _mv(5), "targets": [[0, 3], [1, 2]], "otherwise": 4, "dty": "isize"}),
+        None,
+        _bb([_assign(0, {"k": "use", "op": {"k": "const", "ty": "()", "zst": True}})], {"k": "return"}),
+        _bb([], {"k": "unreachable"}),
+    ]
+    blocks[2] = _bb(st2, _closure_call(cf, 2, 3, [_mv(4, [{"k": "downcast", "name": "Some"}, {"k": "field", "name": "0"}])], 6, 0, st2))
+    return SynFn("for_each", 2, 8, blocks, st.frames[-1]["fn"])
+
+
 # ---- Result / Option combinators as synthetic bodies (eager case split at the combinator) ------------------------------------------
 
 RES, OPT = "core::result::Result", "core::option::Option"
@@ -2028,6 +2087,7 @@ _INT_FOLDS = {
 
 SYN_MODELS = {
     "core::iter::traits::iterator::Iterator::try_for_each": _syn_try_for_each,
+    "core::iter::traits::iterator::Iterator::for_each": _syn_for_each,
 }
 for (_fam, _nm) in COMBINATORS:
     SYN_MODELS[("std::result::Result::<T, E>::" if _fam == "R" else "std::option::Option::<T>::") + _nm] = _syn_combinator(_fam, _nm)
@@ -2306,6 +2366,34 @@ def _store(eng, st, ev, loc, val):
     st.events.append({"k": "write", "loc": loc, "val": val, "fn": st.frames[-1]["fn"], "bb": st.frames[-1]["bb"], "line": None, "pc": len(st.pc)})
 
 
+def _m_mem_take(eng, st, callee, args, ev):
+    """core::mem::take(&mut x) for integers / bool: yields the old value and stores the default (0 / false)"""
+    ty = (callee.get("args") or [""])[0]
+    if len(args) != 1 or args[0][0] != "ref" or ty not in INT_BITS:
+        return NotImplemented
+    loc = args[0][1]
+    old = eng.read(st, loc)
+    val = C(0, ty)
+    if _root_kind(loc) == "P":
+        _store(eng, st, ev, loc, val)
+    else:
+        eng.write(st, loc, val)
+    return old
+
+
+def _m_mem_replace(eng, st, callee, args, ev):
+    """core::mem::replace(&mut x, v): yields the old value and stores v"""
+    if len(args) != 2 or args[0][0] != "ref":
+        return NotImplemented
+    loc = args[0][1]
+    old = eng.read(st, loc)
+    if _root_kind(loc) == "P":
+        _store(eng, st, ev, loc, args[1])
+    else:
+        eng.write(st, loc, args[1])
+    return old
+
+
 def _m_ptr_write(eng, st, callee, args, ev):
     """ptr.write(v) / ptr::write(ptr, v): a store through the pointer"""
     if len(args) != 2:
@@ -2424,6 +2512,8 @@ MODELS = {
     "core::iter::traits::iterator::Iterator::next": _m_range_next,
     "std::mem::size_of": _m_size_of,
     "core::mem::size_of": _m_size_of,
+    "core::mem::take": _m_mem_take, "std::mem::take": _m_mem_take,
+    "core::mem::replace": _m_mem_replace, "std::mem::replace": _m_mem_replace,
     "core::ops::try_trait::Try::branch": _m_try_branch,
     "std::ops::RangeInclusive::<Idx>::new": _m_range_incl_new,
     "core::ops::range::RangeInclusive::<Idx>::new": _m_range_incl_new,
